@@ -409,18 +409,30 @@ impl<T: Sync + Send + 'static> Nucleo<T> {
             point(site::TICK_BEFORE_BLOCKING_LOCK, 0);
             self.worker.lock_arc()
         } else {
-            let Some(worker) = self.worker.try_lock_arc_for(Duration::from_millis(timeout)) else {
-                #[cfg(feature = "verif-hooks")]
-                point(site::TICK_TRYLOCK_FAILED, 0);
-                self.should_notify.store(true, Ordering::Release);
-                #[cfg(feature = "verif-hooks")]
-                point(site::TICK_AFTER_REARM, 0);
-                return Status {
-                    changed: false,
-                    running: true,
-                };
-            };
-            worker
+            match self.worker.try_lock_arc_for(Duration::from_millis(timeout)) {
+                Some(worker) => worker,
+                None => {
+                    #[cfg(feature = "verif-hooks")]
+                    point(site::TICK_TRYLOCK_FAILED, 0);
+                    self.should_notify.store(true, Ordering::SeqCst);
+                    #[cfg(feature = "verif-hooks")]
+                    point(site::TICK_AFTER_REARM, 0);
+                    // The worker may have checked `should_notify` before it was set above
+                    // and released the lock since. Either this second attempt sees the
+                    // released lock or the worker sees the flag when it checks again after
+                    // unlocking (see the spawned closure below).
+                    atomic::fence(Ordering::SeqCst);
+                    match self.worker.try_lock_arc() {
+                        Some(worker) => worker,
+                        None => {
+                            return Status {
+                                changed: false,
+                                running: true,
+                            }
+                        }
+                    }
+                }
+            }
         };
 
         let changed = inner.running;
@@ -437,15 +449,29 @@ impl<T: Sync + Send + 'static> Nucleo<T> {
         if running {
             inner.pattern.clone_from(&self.pattern);
             self.canceled.store(false, atomic::Ordering::Relaxed);
-            if !canceled {
-                self.should_notify.store(true, atomic::Ordering::Release);
-            }
+            // Every run gets its own flag: a previous run that is still finishing up (it
+            // checks its flag once more after releasing the lock) must not consume a
+            // notification request that is meant for this run.
+            self.should_notify = Arc::new(AtomicBool::new(!canceled));
+            inner.should_notify = self.should_notify.clone();
             let cleared = self.state.cleared();
             if cleared {
                 inner.items = self.items.clone();
             }
-            self.pool
-                .spawn(move || unsafe { inner.run(status, cleared) })
+            let should_notify = self.should_notify.clone();
+            let notify = self.notify.clone();
+            self.pool.spawn(move || {
+                unsafe { inner.run(status, cleared) };
+                // `run` checks `should_notify` while the lock is still held. A `tick` that
+                // gave up waiting for the lock sets the flag afterwards, so check again once
+                // the lock is released (otherwise that tick would never be notified).
+                let finished = !inner.was_canceled;
+                drop(inner);
+                atomic::fence(Ordering::SeqCst);
+                if finished && should_notify.swap(false, Ordering::SeqCst) {
+                    notify()
+                }
+            })
         }
         #[cfg(feature = "verif-hooks")]
         if running {
